@@ -209,7 +209,7 @@ func scenarioC10(r *Run) {
 		return
 	}
 	ent := NewEntropy(uint64(t.U32("entropy.seed")))
-	so := SpecOpts{MaxExtra: 4, MaxSigner: 3, Cheap: true}
+	so := SpecOpts{MaxExtra: 4, MaxSigner: 3, Cheap: true, BigOK: bigOK(r, "c10.big")}
 	foreign := t.Bool(2, 5, "c10.foreign")
 	spec := genSpec(t, so)
 	var w *Wire
